@@ -27,7 +27,7 @@ func genHCase(t *rapid.T) HCase {
 	if h.Spec.NumGPUs > 1 && h.N > 4096 {
 		// keeps the two-GPU timing run affordable; 4096 = 64 work-groups = one per compute unit, so a
 		// repeated kernel lands on the same compute units (and their L1 caches) again
-		h.N = 4096
+		h.LimitN(4096)
 	}
 	return HCase{H: h}
 }
